@@ -26,9 +26,9 @@ RULE = ('seeded analytic truth motions (|lat|<=85 both hemispheres, speed <=300 
 ASSUMPTIONS = ['accelerometer floor 100 eps R / h^2: the readings come from a spline second derivative of a 6.4e6 m vector (measured at rest: '
                '~20 eps R / h^2)', 'samples within 12 knots of either end carry spline end-condition error (decays ~0.27 per knot) and are '
                'checked with the shrink test only', 'for increment type the duplicated first sample is not compared']
-REQUIRED_OBS = ['closed_latitude_paths', 'accel_increment_order_checked', 'increment_order_checked', 'reading_ladders', 'trajectory_ladders', 'inversion_ladders', 'at_rest_checked', 'sine_motion_checked', 'forms_compared',
+REQUIRED_OBS = ['long_closed_paths', 'closed_latitude_paths', 'accel_increment_order_checked', 'increment_order_checked', 'reading_ladders', 'trajectory_ladders', 'inversion_ladders', 'at_rest_checked', 'sine_motion_checked', 'forms_compared',
                 'readings_above_floor']
-REQUIRED_CLASSES = {'all': ['motion', 'rest', 'sine']}
+REQUIRED_CLASSES = {'all': ['motion', 'rest', 'sine', 'long_closed']}
 EPS = np.finfo(float).eps
 GY = ['gyro_x', 'gyro_y', 'gyro_z']
 AC = ['accel_x', 'accel_y', 'accel_z']
@@ -57,6 +57,9 @@ def cases(seed, tier):
     nr = 60 if tier == 'quick' else 1500
     for i in range(nr):
         out.append(dict(seed=int(seed) * 1000003 + 50000 + i, cls='rest', h=[0.1, 0.05, 0.02, 0.01, 0.005][i % 5], cost=0.5))
+    nc = 8 if tier == 'quick' else 120
+    for i in range(nc):
+        out.append(dict(seed=int(seed) * 1000003 + 70000 + i, cls='long_closed', h=[0.1, 0.05][i % 2], cost=8))
     ns = 24 if tier == 'quick' else 400
     for i in range(ns):
         out.append(dict(seed=int(seed) * 1000003 + 80000 + i, cls='sine', cost=3))
@@ -191,6 +194,31 @@ def run_motion(case, out, obs):
     return dict(h=h, T=T, extremes=ex, lat0=float(np.rad2deg(m.p['lat'][0])))
 
 
+def run_long_closed(case, out, obs):
+    """Minutes-long out-and-back paths (kilometres of latitude, back at the starting latitude at the last sample): the initial-position
+    form must still describe the same motion as the other two (its latitude integration iterates on the meridian radius)."""
+    from pyins import sim
+    rng = np.random.Generator(np.random.PCG64(case['seed']))
+    h = case['h']
+    T = float(rng.choice([200.0, 300.0, 400.0]))
+    m, ex = TM.random_motion(rng, T, aggressive=0.3, closed=True, gentle=False)
+    errs, rts = [], []
+    for hh in (h, h / 2):
+        n = int(round(T / hh))
+        tt = np.arange(n + 1) * hh
+        tr = m.trajectory(tt)
+        rt, imu = sim.generate_imu(tt, tr[LLA].values[0].copy(), tr[RPH].values, tr[VEL].values, sensor_type=str(rng.choice(['rate', 'increment'])))
+        p, v = pos_vel_err(rt, tr)
+        errs.append(p.max())
+        rts.append(rt)
+    dp = pos_vel_err(rts[0], rts[1].iloc[::2].set_axis(rts[0].index))[0].max()
+    obs['long_closed_paths'] = 1
+    obs['max_long_closed_pos_err_um'] = int(1e6 * errs[0])
+    ctx = f'h={h} T={T:.0f} lat0={np.rad2deg(m.p["lat"][0]):.1f} latitude excursion {m.p["lat"][2][0] * 6.37e6:.0f} m'
+    ladder(out, obs, 'returned position of the initial-position form on a long out-and-back path', errs[0], errs[1], dp, POS_FLOOR, ctx, 'trajectory_ladders')
+    return dict(h=h, T=T, excursion_m=float(m.p['lat'][2][0] * 6.37e6))
+
+
 def run_rest(case, out, obs):
     from pyins import sim
     rng = np.random.Generator(np.random.PCG64(case['seed']))
@@ -292,7 +320,7 @@ def run_case(case):
     if STATE.get('selftest', 0) > 1e-5:
         return dict(violations=[], obs=obs, nontrivial=False, inconclusive=f'truth-motion self-test disagreement {STATE["selftest"]:.2e}')
     try:
-        sample = {'motion': run_motion, 'rest': run_rest, 'sine': run_sine}[case['cls']](case, out, obs)
+        sample = {'motion': run_motion, 'rest': run_rest, 'sine': run_sine, 'long_closed': run_long_closed}[case['cls']](case, out, obs)
     except Exception as e:
         import traceback
         return dict(violations=[vio('exception', f'{type(e).__name__}: {e}', tb=traceback.format_exc()[-1200:])], obs=obs)
